@@ -14,7 +14,7 @@ RULE = ("G1 specs with log-weights (recursive specs: real weights in {0,.1,.25,.
         "the chosen rule had a competitor with a different value; distinct by case hash")
 ASSUMPTIONS = ["log-weights <= 0 for recursive specs (finite, attained maximum)", "float64",
                "weight tolerance 1e-9*(1+|w|)"]
-ESSENTIAL_LABELS = ['patterned-weight', 'recursive', 'edgeless-external', 'disconnected-internal', 'all-attached-external',
+ESSENTIAL_LABELS = ['weights-require-grad', 'patterned-weight', 'recursive', 'edgeless-external', 'disconnected-internal', 'all-attached-external',
                     'repeated-attachment', 'size1-domain', 'deriv>=2', 'competitor']
 
 
@@ -34,7 +34,8 @@ def cases(draw, tier):
         base = gen_fgg.specs(recursive=False, weights=wts, max_nts=4, max_dom=3 if tier == 'quick' else 4,
                              nt_arities=(0, 1, 1, 2, 3), start_arity=(0, 0, 1, 2, 3))
     spec = draw(gen_fgg.patterned(base, weights=wts) if draw(st.integers(0, 2)) == 0 else base)
-    return {'spec': spec}
+    # the grammar being decoded is often the one being trained: weights that require gradients are legitimate input
+    return {'spec': spec, 'requires_grad': draw(st.integers(0, 2)) == 0}
 
 
 def strategy(tier):
@@ -106,6 +107,9 @@ def check(case, ctx):
     except Exception as e:
         ctx.violation('build-failed', f'{type(e).__name__}: {e}'); return
     logw = {n: np.log(np.asarray(t['weights'], dtype=np.float64)) if True else None for n, t in spec['terminals'].items()}
+    if case.get('requires_grad'):
+        for f_ in fgg.factors.values(): f_.weights.requires_grad_()
+        ctx.label('weights-require-grad')
     shape = best.shape
     assts = list(itertools.product(*[range(s) for s in shape]))
     finite = [a for a in assts if np.isfinite(best[a] if a else best)]
